@@ -32,6 +32,8 @@ def patches():
     out = []
     for f in sorted(glob.glob(os.path.join(VERIF, "mutants", "*.diff"))):
         out.append((os.path.basename(f)[:-5], f, None))
+    for f in sorted(glob.glob(os.path.join(VERIF, "benign", "*.diff"))):
+        out.append(("benign-" + os.path.basename(f)[:-5], f, None))
     for d in sorted(glob.glob(os.path.join(VERIF, "seeded", "*"))):
         f = os.path.join(d, "patch.diff")
         if os.path.exists(f):
